@@ -541,6 +541,10 @@ def node_variants(s, parent_kind=None, siblings=1):
     elif k == "Select" and free_type:
         n = copy.deepcopy(s)
         out.append(("Select->Fraction", {"k": "Fraction", "q": n["q"], "value": n["cut"]}))
+        out.append(("Select->its-cut", copy.deepcopy(s["cut"])))
+    if free_type and k != "Select":
+        # a Select forwards unknown attributes to its cut: it must still not pass for the aggregator it wraps
+        out.append((f"{k}->Select({k})", {"k": "Select", "q": {"t": "num", "col": "w", "fl": "lambda"}, "cut": copy.deepcopy(s)}))
     return out
 
 
